@@ -1,11 +1,16 @@
 //! Correspondence / oracle harness: links the real crate from /repo's working tree.
+mod alloc;
 mod anyshape;
 mod c01;
+mod c05;
 mod c06;
 mod genr;
 mod rng;
 mod util;
 mod wire;
+
+#[global_allocator]
+static GLOBAL: alloc::Counting = alloc::Counting;
 
 fn main() {
     let args: Vec<String> = std::env::args().collect();
@@ -18,6 +23,7 @@ fn main() {
     let code = match args[1].as_str() {
         "c01" => c01::run(&args[2..]),
         "c06" => c06::run(&args[2..]),
+        "c05" => c05::run(&args[2..]),
         other => {
             eprintln!("unknown property {other}");
             2
